@@ -49,17 +49,15 @@ func Hist(o HistOpts) HistStats {
 		o.NShards = 1
 	}
 	n := 0
+	sharded := o.NShards <= 1
 	for depth := 1; depth <= o.MaxDepth && len(frontier) > 0; depth++ {
 		var next [][]int
+		// before the frontier is split every worker runs the same levels; only
+		// worker 0 counts them
+		count := sharded || o.Shard == 0
 		for _, h := range frontier {
 			for op := 0; op < o.NOps; op++ {
 				if o.Enabled != nil && !o.Enabled(h, op) {
-					continue
-				}
-				if depth == 1 && o.NShards > 1 && op%o.NShards != o.Shard && o.NOps >= o.NShards {
-					continue
-				}
-				if depth == 2 && o.NShards > 1 && o.NOps < o.NShards && (h[0]*o.NOps+op)%o.NShards != o.Shard {
 					continue
 				}
 				n++
@@ -72,8 +70,10 @@ func Hist(o HistOpts) HistStats {
 				copy(nh, h)
 				nh[len(h)] = op
 				viol, key, steps := o.Run(nh)
-				st.Histories++
-				st.Transitions += steps
+				if count {
+					st.Histories++
+					st.Transitions += steps
+				}
 				if viol != "" {
 					st.Violation = viol
 					st.Hist = nh
@@ -85,11 +85,24 @@ func Hist(o HistOpts) HistStats {
 					}
 					seen[key] = true
 				}
-				st.States++
+				if count {
+					st.States++
+				}
 				next = append(next, nh)
 			}
 		}
 		st.DepthDone = depth
+		if !sharded && len(next) >= 2*o.NShards {
+			// split the frontier: from here on every worker explores its own part
+			var mine [][]int
+			for i, h := range next {
+				if i%o.NShards == o.Shard {
+					mine = append(mine, h)
+				}
+			}
+			next = mine
+			sharded = true
+		}
 		frontier = next
 	}
 	if len(frontier) == 0 {
